@@ -91,3 +91,26 @@ def register(w):
       assumes=['T: tuples are immutable and the __code__/__globals__/__closure__ cannot be rebound by the call '
                'of the factory (opaque_preserves)',
                'the new function is what the bound factory returns (opaque call)']))
+
+  # ---- the per-function driver: what is resolved, reserved and erased, and in which order (event mode) -------
+  # C12: origin information is attached to the freshly parsed tree, before any rewriting; C11: the namer is seeded
+  # with the function's own namespace (globals + closure) and the transformed name comes from that namer;
+  # C09: defaults are erased before transform_ast and the context carries the namer and the user context.
+  w.add(Contract(
+      'malt.pyct.transpiler.GenericTranspiler.transform_function', mode='event', serves=['C09', 'C11', 'C12'],
+      callbacks=['get_transformed_name', '_erase_arg_defaults', 'transform_ast', 'new_symbol', 'malt.pyct.naming.Namer'],
+      spec='''
+def spec(self, fn, user_context):
+  future_features = inspect_utils.getfutureimports(fn)
+  node, source = parser.parse_entity(fn, future_features=future_features)
+  origin_info.resolve_entity(node, source, fn)
+  namespace = inspect_utils.getnamespace(fn)
+  namer = naming.Namer(namespace)
+  new_name = namer.new_symbol(self.get_transformed_name(node), ())
+  entity_info = transformer.EntityInfo(name=new_name, source_code=source, source_file='<fragment>',
+                                       future_features=future_features, namespace=namespace)
+  context = transformer.Context(entity_info, namer, user_context)
+  node = self._erase_arg_defaults(node)
+  result = self.transform_ast(node, context)
+  return result, context
+'''))
